@@ -176,6 +176,15 @@ fn test_editor_on(c: &EditorCase, ctx: &mut CaseCtx) -> Result<(), String> {
         let on_last = last_line_no_nl && d.start.0 as usize == n_lines - 1 && n_lines > 1;
         ctx.class_if(astral_before, "astral_before_lint_on_line");
         ctx.class_if(on_later_line, "lint_on_later_line");
+        {
+            let e = crate::oracle::lsp_pos::pos_to_index(&text, pos_of(d.end));
+            let nested = diags.iter().filter(|o| {
+                let (os, oe) = (crate::oracle::lsp_pos::pos_to_index(&text, pos_of(o.start)), crate::oracle::lsp_pos::pos_to_index(&text, pos_of(o.end)));
+                s <= os && oe <= e && (os, oe) != (s, e)
+            }).count();
+            ctx.class_if(nested >= 2, "diagnostic_with_two_or_more_others_inside_it");
+            ctx.class_if(d.start.0 == d.end.0 && text[s..e.min(text.len())].iter().any(|ch| ch.len_utf16() == 2), "single_line_diagnostic_containing_an_astral_character");
+        }
         ctx.class_if(!on_later_line && text.first() == Some(&'\u{feff}'), "leading_byte_order_mark_with_lint_on_first_line");
         ctx.class_if(on_last, "lint_on_last_line_without_newline");
         nt |= astral_before || (n_lines >= 2 && on_later_line) || on_last;
@@ -349,6 +358,15 @@ fn editor_text() -> BoxedStrategy<String> {
         1 => proptest::collection::vec(g::plain_word(), 41..60).prop_map(|ws| {
             // a run-on sentence hard-wrapped over several lines
             ws.chunks(12).map(|c| c.join(" ")).collect::<Vec<_>>().join("\n")
+        }),
+        // a run-on sentence (flagged as a whole) with further problems and astral characters inside
+        // it: nested diagnostics, ranges that contain surrogate pairs
+        2 => (proptest::collection::vec(prop_oneof![6 => g::plain_word(), 1 => g::sel_str(&["teh", "definate", "the the", "agian", "😀", "𝒜𝒷", "an apple an problem"])], 41..56), any::<bool>()).prop_map(|(ws, wrap)| {
+            if wrap {
+                ws.chunks(14).map(|c| c.join(" ")).collect::<Vec<_>>().join("\n")
+            } else {
+                ws.join(" ")
+            }
         }),
         // lints whose span runs across markup or a comment-line boundary
         2 => g::sel_str(&["I saw the *the* cat.", "All of *the* sudden it rained.", "I saw the <b>the</b> cat.", "We could **of** gone, an *apple* a day.", "I saw the\nthe cat.", "It is a [an](x) apple and the `x` the end.", "there _fore_ we go", "an  *apple* and a  **apple**"]),
@@ -838,6 +856,8 @@ pub fn run(run: &mut Run) {
     run.require_class("editor_round_trip", "astral_before_lint_on_line", (n / 20) as u64);
     run.require_class("editor_round_trip", "lint_on_last_line_without_newline", (n / 20) as u64);
     run.require_class("editor_round_trip", "crlf", (n / 10) as u64);
+    run.require_class("editor_round_trip", "diagnostic_with_two_or_more_others_inside_it", (n / 40) as u64);
+    run.require_class("editor_round_trip", "single_line_diagnostic_containing_an_astral_character", (n / 40) as u64);
     run.require_class("editor_round_trip", "leading_byte_order_mark_with_lint_on_first_line", (n / 40) as u64);
     let n = run.n(200, 4_000);
     run.prop("code_actions_racing_an_edit", n, race_case, test_race);
